@@ -316,6 +316,19 @@ type c19Record struct {
 	origin c19Payload
 }
 
+// key of the violation a defective record stands for (the same keys as the direct judgement uses)
+func (r c19Record) key() string {
+	switch r.Fn {
+	case "SafePrime":
+		return fmt.Sprintf("C19:GetRandomSafePrimesConcurrent:bad-pair:%s:toy", r.defect)
+	case "PaillierKey":
+		return "C19:paillier.GenerateKeyPair:" + r.defect
+	case "NTilde":
+		return "C19:GenerateNTildei:" + r.defect
+	}
+	return fmt.Sprintf("C19:%s:%s:toy", r.Fn, r.defect)
+}
+
 func (r c19Record) line() string {
 	b, _ := json.Marshal(struct {
 		Fn  string  `json:"fn"`
@@ -589,8 +602,20 @@ func c19BigArgs() ([]c19BigArg, error) {
 	return out, nil
 }
 
+// C19: violations already reported stand, also when a later part of the machinery is inconclusive.
 func C19(ctx *core.Ctx) error {
 	s := &c19State{ctx: ctx, cov: core.NewCov()}
+	err := c19Main(s)
+	if err != nil && len(ctx.Violations()) > 0 {
+		ctx.Note("after the violations above a later part of the check was inconclusive: %v", err)
+		s.cov.Set("incomplete", true)
+		return ctx.WriteEvidence("model_checking", "run cut short after violations; see notes", s.cov, nil, "")
+	}
+	return err
+}
+
+func c19Main(s *c19State) error {
+	ctx := s.ctx
 	cov := s.cov
 
 	// ---------------- replay of one stored case
@@ -641,7 +666,11 @@ func C19(ctx *core.Ctx) error {
 		preCases = append(preCases, c19PreCase{Mode: "tape", Seed: ctx.Seed*31 + int64(i), Conc: 3, DeadlineS: 300})
 	}
 	for i, bits := range []int{18, 20, 22, 24, 26, 28, 30, 32, 40, 64, 128, 256} {
-		for r := 0; r < ctx.Pick(1, 4); r++ {
+		reps := ctx.Pick(1, 4)
+		if bits <= 22 {
+			reps = ctx.Pick(6, 20) // few safe primes of 9..11 bits exist: P = Q is likely unless the code excludes it
+		}
+		for r := 0; r < reps; r++ {
 			preCases = append(preCases, c19PreCase{Mode: "toy-paillier", Bits: bits, Seed: ctx.Seed*37 + int64(i*10+r), Conc: 1 + (i+r)%4, DeadlineS: 240})
 		}
 	}
@@ -1295,7 +1324,7 @@ func C19(ctx *core.Ctx) error {
 					return core.Inconcl("Samplers_Trace rejects %s, math/big finds no defect: the oracles disagree", bad.line())
 				}
 				oracleRejected++
-				ctx.Report(fmt.Sprintf("C19:%s:%s:toy", bad.Fn, bad.defect),
+				ctx.Report(bad.key(),
 					fmt.Sprintf("the real code returned %v for %s%v: %s (rejected by TLC on Samplers_Trace.tla and by math/big)", bad.Ret, bad.Fn, bad.Arg, bad.defect), bad.origin)
 				rest = rest[hw+1:]
 			}
@@ -1307,7 +1336,7 @@ func C19(ctx *core.Ctx) error {
 				ctx.Note("%d toy records were not looked at by TLC after %d rejected ones", len(rest), oracleRejected)
 				for _, r := range rest {
 					if r.defect != "" {
-						ctx.Report(fmt.Sprintf("C19:%s:%s:toy", r.Fn, r.defect), fmt.Sprintf("the real code returned %v for %s%v: %s (math/big)", r.Ret, r.Fn, r.Arg, r.defect), r.origin)
+						ctx.Report(r.key(), fmt.Sprintf("the real code returned %v for %s%v: %s (math/big)", r.Ret, r.Fn, r.Arg, r.defect), r.origin)
 					}
 				}
 			}
